@@ -1,6 +1,7 @@
 """C10 — numeric coding is an order embedding; range decomposition is exact."""
 GEN = True             # go/extract/c10.go translates the numeric kernels from source into lean/BlugeGen/C10.lean
 STATELESS = True
+EXTRACT_DEPS = ("c01.go",)   # the statement walker (skeleton of the dictionary walk)
 REQUIRED_BRANCHES = ["dateq", "dateq-asymmetric-ends", "dateq-unbounded-end"]
 ASSUMPTIONS = [
     "Go's int64/uint64 arithmetic is two's-complement wrap-around as modelled by BitVec 64",
